@@ -151,9 +151,18 @@ def generate(prop, rng):
         if faulty and kind in ("stage", "xfer", "index_save", "stage_file") and rng.random() < 0.5:
             op["fault"] = {
                 "nth": rng.randint(1, 6),
-                "stage": rng.choice(["create", "mid", "rename", "put_lost", "ack_lost"]),
+                "stage": rng.choice(["create", "mid", "rename", "put_lost", "ack_lost", "protect", "protect"]),
                 "exc": rng.choice(["EIO", "ENOSPC", "ConnectionError"]),
             }
+            if op["fault"]["stage"] == "protect":
+                # chmod of a placed object fails (Samba / foreign owner): tolerated by the library, the
+                # object stays writable; 1-3 objects are hit
+                op["fault"].update(exc=rng.choice(["EACCES", "EIO"]), count=rng.randint(1, 3))
+            # the same operation is run again without faults: what it adds must end up read-only
+            op["retry"] = rng.random() < 0.6
+        if prop == "C01" and kind == "stage" and op.get("upload") and rng.random() < 0.5:
+            # a second writer rewrites a workspace file while the upload staging is between two reads
+            op["mid_edit"] = {"after_reads": rng.randrange(12), "pick": rng.random(), "content": rng.randrange(len(pool))}
         ops.append(op)
     return {"prop": prop, "cfg": cfg, "contents": [gen.enc(b) for b in pool], "trees": trees, "ops": ops}
 
@@ -282,8 +291,9 @@ def _apply_fault(ctx, op):
         "rename": ("rename",),
         "put_lost": ("r_put",),
         "ack_lost": ("r_put_ack",),
+        "protect": ("chmod",),
     }[f["stage"]]
-    ctx.seam.faults = [{"at": at, "match": None, "nth": f["nth"], "exc": f["exc"], "name": f["stage"], "count": 1}]
+    ctx.seam.faults = [{"at": at, "match": None, "nth": f["nth"], "exc": f["exc"], "name": f["stage"], "count": f.get("count", 1)}]
 
 
 def execute(sc, ctx):
@@ -365,6 +375,26 @@ def execute(sc, ctx):
                 new = set(objs) - before.get(s, set())
                 if new:
                     h.n_adding_ops[s] = h.n_adding_ops.get(s, 0) + 1
+            if faulted and op.get("retry") and not op.get("mid_edit"):
+                # the SAME operation once more, fault-free: whatever the pair of runs added to a local
+                # store must be named correctly (audited with the next step) and end up read-only
+                ok2 = True
+                try:
+                    OPS[op["op"]](h, op, n)
+                except Exception:  # noqa: BLE001
+                    ok2 = False  # judged by the fault-free twin scenarios; not this oracle's business
+                if ok2:
+                    ctx.probe("retried_after_fault")
+                    for s in sorted(h.odbs):
+                        if STORES[s]["kind"] != "local":
+                            continue
+                        objs, _, modes = _listing_modes(h, s)
+                        for oid in sorted(set(objs) - before.get(s, set())):
+                            if modes.get(oid) != 0o444 and model.check_object(oid, objs[oid], STORES[s]["hash"]) is None:
+                                ctx.violate(
+                                    "added-not-readonly", f"{op['op']}:after-fault-free-rerun:{op['fault']['stage']}",
+                                    f"store {s}: {model.short(oid)} mode {oct(modes.get(oid, 0))} after op{n} {op} was repeated without faults",
+                                )
     if h.state is not None:
         h.state.close()
     if prop == "C01":
@@ -417,12 +447,43 @@ def op_stage(h, op, n):
     odb = h.odb(s)
     ws = h.write_ws(op["tree"])
     fired0 = sum(ctx.seam.fired.values())
-    staging, meta, obj = build(
-        odb, ws + (os.sep if op.get("trailing_sep") else ""), h.w.localfs, algo, upload=bool(op.get("upload")),
-        checksum_jobs=h.cfg["jobs"],
-    )
+    edited = []
+    me = op.get("mid_edit") if (op.get("upload") and ctx.prop == "C01") else None
+    if me:
+        # upload staging hashes the very stream it copies, so a concurrent editor can change what is
+        # stored but never make the store file bytes under another content's name
+        reads = [0]
+        rels = sorted(h.trees[op["tree"]])
+        victim = rels[int(me["pick"] * len(rels)) % len(rels)]
+
+        def hook(path_read):
+            if not path_read.startswith(ws + os.sep):
+                return
+            reads[0] += 1
+            if reads[0] == me["after_reads"] + 1 and not edited:
+                ctx.seam.read_hook = None
+                nb = b"edited-meanwhile:" + h.contents[me["content"]]
+                # replaced, not rewritten in place: the file may be a hard link to a store object
+                REAL["os.unlink"](os.path.join(ws, victim))
+                with REAL["open"](os.path.join(ws, victim), "wb") as f:
+                    f.write(nb)
+                ctx.clock.advance(10**9)
+                ctx.seam.stamp(os.path.join(ws, victim))
+                edited.append(victim)
+                ctx.probe("workspace_file_rewritten_during_upload_staging")
+
+        ctx.seam.read_hook = hook
+    try:
+        staging, meta, obj = build(
+            odb, ws + (os.sep if op.get("trailing_sep") else ""), h.w.localfs, algo, upload=bool(op.get("upload")),
+            checksum_jobs=h.cfg["jobs"],
+        )
+    finally:
+        ctx.seam.read_hook = None
+        if edited:
+            h.ws_written[op["tree"]] = None  # the workspace no longer holds the model's bytes
     r = transfer(staging, odb, {obj.hash_info}, shallow=False, hardlink=bool(op.get("hardlink")), jobs=h.cfg["jobs"])
-    faulted = sum(ctx.seam.fired.values()) > fired0
+    faulted = sum(ctx.seam.fired.values()) > fired0 or bool(edited)
     doid, dbytes, ents = h.model_dir(op["tree"], algo)
     tb = h.tree_bytes(op["tree"])
     res = {}
